@@ -197,3 +197,14 @@ func kitMin(a, b int) int {
 	}
 	return b
 }
+
+// Chance is true with probability of about num/den. rapid's bounded integer
+// generators are deliberately biased towards small values and the bounds
+// (measured: IntRange(0,2999) == 0 in 9% of the draws), so rare events are drawn
+// from the residue of a full-width value instead.
+func Chance(t *rapid.T, label string, num, den uint64) bool {
+	// small values (and hence small residues) are favoured as well, so the
+	// accepted residues sit in the middle of the range
+	r := rapid.Uint64().Draw(t, label) % den
+	return r >= den/2 && r < den/2+num
+}
